@@ -163,7 +163,6 @@ structure QState where
   switched : Option String
   sfacts : List (String × Tuple)
   srules : List String
-  trace : List Event
   deriving DecidableEq, Repr
 
 inductive Step where
@@ -187,7 +186,6 @@ def fixedMsg : StmtKind → Option String
 
 /-- one arm of the big `match stmt` (handler.rs:2557-3632), for the current KG `s.kg` -/
 def applyStmt (s : QState) (text : List Char) (st : Stmt) : Step :=
-  let s := { s with trace := s.trace ++ [⟨st, s.kg⟩] }
   let kgv := (findKg s.w s.kg).getD ⟨s.kg, [], [], []⟩
   match st.kind, st.eff with
   | .schemaDecl, .schema rel _ =>
@@ -238,31 +236,32 @@ def applyStmt (s : QState) (text : List Char) (st : Stmt) : Step :=
     | none, _ => .abort s s!"unsupported:{k.name}"
 
 /-- phase 2 loop (handler.rs:2545-3640) with its accumulator `current_stmt`, which is cleared at the
-    end of every iteration (3638) -/
-def phase2 (P : Parser) : QState → List Char → List (List Char) → Step
-  | s, _, [] => .cont s
-  | s, acc, line :: rest =>
+    end of every iteration (3638). `tr` records, for every statement that is run, the statement and the
+    current KG at that moment. -/
+def phase2 (P : Parser) : QState → List Event → List Char → List (List Char) → Step × List Event
+  | s, tr, _, [] => (.cont s, tr)
+  | s, tr, acc, line :: rest =>
     let acc := acc ++ line ++ [' ']
     let stmtText := trim acc
-    if stmtText.isEmpty then phase2 P s [] rest else
+    if stmtText.isEmpty then phase2 P s tr [] rest else
     match parseStatement P stmtText with
     | some st =>
       match applyStmt s stmtText st with
-      | .cont s' => phase2 P s' [] rest
-      | .abort s' e => .abort s' e
-    | none => phase2 P { s with query := some stmtText } [] rest
+      | .cont s' => phase2 P s' (tr ++ [⟨st, s.kg⟩]) [] rest
+      | .abort s' e => (.abort s' e, tr ++ [⟨st, s.kg⟩])
+    | none => phase2 P { s with query := some stmtText } tr [] rest
 
 /-- Spec-level reading of a validated program (C30 "statements take effect in program order"):
     the statements of the logical lines, applied one after the other to the running state. -/
-def specRun (P : Parser) : QState → List (List Char) → Step
-  | s, [] => .cont s
-  | s, l :: ls =>
+def specRun (P : Parser) : QState → List Event → List (List Char) → Step × List Event
+  | s, tr, [] => (.cont s, tr)
+  | s, tr, l :: ls =>
     match parseStatement P l with
     | some st =>
       match applyStmt s l st with
-      | .cont s' => specRun P s' ls
-      | .abort s' e => .abort s' e
-    | none => specRun P { s with query := some l } ls
+      | .cont s' => specRun P s' (tr ++ [⟨st, s.kg⟩]) ls
+      | .abort s' e => (.abort s' e, tr ++ [⟨st, s.kg⟩])
+    | none => specRun P { s with query := some l } tr ls
 
 def dedup (l : List Tuple) : List Tuple := l.foldl (fun acc t => if acc.contains t then acc else acc ++ [t]) []
 
@@ -271,15 +270,15 @@ def scanRows (w : World) (kg rel : String) (extra : List (String × Tuple)) : Li
   dedup (((findKg w kg).map (relOf · rel)).getD [] ++ (extra.filter (·.1 == rel)).map (·.2))
 
 /-- tail of `QueryJob::execute` (handler.rs:3652-3849) -/
-def finish (P : Parser) (s : QState) : Out :=
-  if !s.msgs.isEmpty && s.query.isNone then ⟨s.w, .msgs s.msgs s.switched, s.trace⟩
+def finish (P : Parser) (s : QState) (tr : List Event) : Out :=
+  if !s.msgs.isEmpty && s.query.isNone then ⟨s.w, .msgs s.msgs s.switched, tr⟩
   else match s.query with
-    | none => ⟨s.w, .err "queryfail", s.trace⟩                      -- nothing to run: the whole text goes to the engine
+    | none => ⟨s.w, .err "queryfail", tr⟩                      -- nothing to run: the whole text goes to the engine
     | some q =>
-      if stripInlineComment q != q then ⟨s.w, .err "queryparse", s.trace⟩   -- `transform_query_shorthand` sees the comment
+      if stripInlineComment q != q then ⟨s.w, .err "queryparse", tr⟩   -- `transform_query_shorthand` sees the comment
       else match parseStatement P q with
-        | some ⟨.query, .query rel _⟩ => ⟨s.w, .rows (scanRows s.w s.kg rel s.sfacts), s.trace⟩
-        | _ => ⟨s.w, .err "unsupported:query-form", s.trace⟩
+        | some ⟨.query, .query rel _⟩ => ⟨s.w, .rows (scanRows s.w s.kg rel s.sfacts), tr⟩
+        | _ => ⟨s.w, .err "unsupported:query-form", tr⟩
 
 /-- `QueryJob::execute` (handler.rs:2458): target KG, pre-processing, phase 1, phase 2, tail -/
 def queryProgram (P : Parser) (w : World) (kgArg : Option String) (text : List Char) : Out :=
@@ -287,9 +286,9 @@ def queryProgram (P : Parser) (w : World) (kgArg : Option String) (text : List C
   if !hasKg w kg then ⟨w, .err "nokg", []⟩ else
   let lines := logicalLines text
   if lines.any (fun l => (parseStatement P l).isNone) then ⟨w, .err "parse", []⟩ else
-  match phase2 P ⟨w, kg, [], none, none, [], [], []⟩ [] lines with
-  | .abort s e => ⟨s.w, .err e, s.trace⟩
-  | .cont s => finish P s
+  match phase2 P ⟨w, kg, [], none, none, [], []⟩ [] [] lines with
+  | (.abort s e, tr) => ⟨s.w, .err e, tr⟩
+  | (.cont s, tr) => finish P s tr
 
 /-! ### `execute_program` -/
 
@@ -314,20 +313,26 @@ def kgDenyClass (r : KgRole) (k : StmtKind) : String :=
   | .viewer => "denied-kgviewer"
   | _ => if k == .kgDrop || k == .kgAclGrant || k == .kgAclRevoke then "denied-kgowner" else "denied-kgadmin"
 
-/-- the three gates (handler.rs:4286-4369); `none` = passed -/
-def gates (w : World) (role : Option (String × Role)) (whole : Option Stmt) (curKg : Option String) : Option String :=
-  -- global role gate
-  match (match role, whole with
-         | some (_, r), some st => if globalOk r st.kind then none else some "denied-global"
-         | _, _ => none) with
-  | some e => some e
-  | none =>
-  -- `_internal` guards: current KG (non-admins), and named KG (everyone)
-  if (match role with | some (_, r) => r != Role.admin && curKg == some INTERNAL | none => false) then some "denied-internal" else
-  if (match whole with
-      | some ⟨.kgUse, .name n⟩ | some ⟨.kgDrop, .name n⟩ | some ⟨.kgCreate, .name n⟩ => n == INTERNAL
-      | _ => false) then some "denied-internal" else
-  -- per-KG gate
+/-- global role gate (handler.rs:4286-4291): only when an identity is present and the whole text parses -/
+def gateGlobal (role : Option (String × Role)) (whole : Option Stmt) : Option String :=
+  match role, whole with
+  | some (_, r), some st => if globalOk r st.kind then none else some "denied-global"
+  | _, _ => none
+
+/-- `.kg use/drop/create _internal` -/
+def namesInternal (st : Stmt) : Bool :=
+  match st.kind, st.eff with
+  | .kgUse, .name n | .kgDrop, .name n | .kgCreate, .name n => n == INTERNAL
+  | _, _ => false
+
+/-- `_internal` guards (4293-4326): the current KG for non-admins; the named KG of the whole-text parse for everyone -/
+def gateInternal (role : Option (String × Role)) (whole : Option Stmt) (curKg : Option String) : Option String :=
+  if (match role with | some (_, r) => r != Role.admin && curKg == some INTERNAL | none => false) then some "denied-internal"
+  else if (match whole with | some st => namesInternal st | none => false) then some "denied-internal"
+  else none
+
+/-- per-KG gate (4328-4369): non-admin identity, whole text parses, and there is a target KG -/
+def gateKg (w : World) (role : Option (String × Role)) (whole : Option Stmt) (curKg : Option String) : Option String :=
   match role, whole with
   | some (u, r), some st =>
     if r == Role.admin then none else
@@ -338,6 +343,15 @@ def gates (w : World) (role : Option (String × Role)) (whole : Option Stmt) (cu
       | none => some "denied-noacl"
       | some kr => if kgOk kr st.kind then none else some (kgDenyClass kr st.kind)
   | _, _ => none
+
+/-- the three gates in the order of the code; `none` = passed -/
+def gates (w : World) (role : Option (String × Role)) (whole : Option Stmt) (curKg : Option String) : Option String :=
+  match gateGlobal role whole with
+  | some e => some e
+  | none =>
+    match gateInternal role whole curKg with
+    | some e => some e
+    | none => gateKg w role whole curKg
 
 def aclGrant (w : World) (kg user role : String) : World :=
   updKg w INTERNAL fun k => setRel k "kg_acls" (((relOf k "kg_acls").filter fun t => !aclMatches kg user t) ++ [[strVal kg, strVal user, strVal (lower role)]])
@@ -401,24 +415,76 @@ def postProcess (_w : World) (role : Option (String × Role)) (whole : Option St
     | [m] => if isErrorMsg m then ⟨w3, .err (errOfMsg m), r.trace⟩ else ⟨w3, res, r.trace⟩
     | _ => ⟨w3, res, r.trace⟩
 
+/-- the identity `execute_program` works with (handler.rs:4270-4284): outer `none` = the user no longer
+    exists; `some none` = no `auth` supplied -/
+def identityOf (w : World) (user : Option String) : Option (Option (String × Role)) :=
+  match user with
+  | none => some none
+  | some u => (refreshRole w u).map fun r => some (u, r)
+
+/-- `current_kg` of the gates (handler.rs:4295-4300): the explicit KG, else the live session's KG -/
+def currentKg (kgArg : Option String) (sraw : Option Sess) : Option String :=
+  match kgArg with
+  | some k => some k
+  | none => (sraw.filter (!·.closed)).map (·.kg)
+
+/-- the session id a request supplies (possibly of a vanished session) -/
+def sessOf (w : World) (rq : Req) : Option Sess := if rq.useSess then rq.user.bind (findSess w) else none
+
+/-- session interception of a single session rule / fact (handler.rs:4481-4536); `none` = not intercepted -/
+def sessionIntercept (w : World) (sraw : Option Sess) (whole : Option Stmt) (curKg : Option String) : Option Out :=
+  match sraw, whole with
+  | some se, some ⟨.sessionRule, .srule h⟩ =>
+    if startsWith "__".toList (h.toList.dropWhile (· == '~')) then some ⟨w, .err "reserved", []⟩
+    else if se.closed then some ⟨w, .err "sessiongone", []⟩
+    else some ⟨updSess w se.user fun s => { s with rules := s.rules ++ [h] }, .msgs ["srule"] none, [⟨⟨.sessionRule, .srule h⟩, curKg.getD "default"⟩]⟩
+  | some se, some ⟨.fact, .fact rel t⟩ =>
+    if se.closed then some ⟨w, .err "sessiongone", []⟩
+    else some ⟨updSess w se.user fun s => { s with facts := s.facts ++ [(rel, t)] }, .msgs ["sfact"] none, [⟨⟨.fact, .fact rel t⟩, curKg.getD "default"⟩]⟩
+  | some _, some ⟨.sessionRule, _⟩ => some ⟨w, .err "unsupported:session-rule-form", []⟩
+  | some _, some ⟨.fact, _⟩ => some ⟨w, .err "unsupported:fact-form", []⟩
+  | _, _ => none
+
+/-- effective KG (handler.rs:4539-4545); outer `none` = a supplied but vanished session id -/
+def effectiveKg (kgArg : Option String) (sraw : Option Sess) : Option (Option String) :=
+  match kgArg, sraw with
+  | some k, _ => some (some k)
+  | none, some se => if se.closed then none else some (some se.kg)
+  | none, none => some none
+
+/-- the query path (handler.rs:4538-4623): `?…` with a session id goes to `query_program_with_session`,
+    everything else to `query_program` on the effective KG; then `postProcess` -/
+def queryPath (P : Parser) (w : World) (rq : Req) (role : Option (String × Role)) (whole : Option Stmt)
+    (sraw : Option Sess) : Out :=
+  match effectiveKg rq.kgArg sraw with
+  | none => ⟨w, .err "sessiongone", []⟩
+  | some effKg =>
+    let r : Out := match startsWithChar '?' (trim rq.text), sraw with
+      | true, some se => queryWithSession P w se.user rq.text
+      | _, _ => queryProgram P w effKg rq.text
+    postProcess w role whole sraw r
+
+/-- everything after the fast path (handler.rs:4478-4623) -/
+def execRest (P : Parser) (w : World) (rq : Req) (role : Option (String × Role)) (whole : Option Stmt)
+    (sraw : Option Sess) (curKg : Option String) : Out :=
+  match sessionIntercept w sraw whole curKg with
+  | some o => o
+  | none => queryPath P w rq role whole sraw
+
 /-- `Handler::execute_program` (handler.rs:4248) -/
 def execProgram (P : Parser) (w : World) (rq : Req) : Out :=
   let trimmed := trim rq.text
-  -- refresh the role from `_internal.users` (4270-4284)
-  match (match rq.user with
-         | none => some none
-         | some u => (refreshRole w u).map fun r => some (u, r)) with
+  match identityOf w rq.user with
   | none => ⟨w, .err "denied-nouser", []⟩
   | some role =>
   let whole := parseStatement P trimmed
-  -- `session_id` as supplied (it may name a session that no longer exists), and the live session
-  let sraw : Option Sess := if rq.useSess then rq.user.bind (findSess w) else none
-  let sess : Option Sess := sraw.filter (!·.closed)
-  let curKg : Option String := match rq.kgArg with | some k => some k | none => sess.map (·.kg)
+  -- `session_id` as supplied (it may name a session that no longer exists)
+  let sraw : Option Sess := sessOf w rq
+  let curKg : Option String := currentKg rq.kgArg sraw
   match gates w role whole curKg with
   | some e => ⟨w, .err e, []⟩
   | none =>
-  let ev (st : Stmt) : List Event := [⟨st, ((targetKg st curKg).getD (curKg.getD "default"))⟩]
+  let ev (st : Stmt) : List Event := [⟨st, curKg.getD "default"⟩]
   -- fast path: session / user / ACL meta commands (4382-4476)
   match (if startsWithChar '.' trimmed then whole else none) with
   | some ⟨.sessionClear, e⟩ =>
@@ -446,39 +512,11 @@ def execProgram (P : Parser) (w : World) (rq : Req) : Out :=
          ⟨updKg w INTERNAL fun k => setRel k "kg_acls" ((relOf k "kg_acls").filter fun t => !aclMatches kg user t), .msgs ["revoked"] none, ev ⟨.kgAclRevoke, .aclRevoke kg user⟩⟩
        else ⟨w, .err "noacl", []⟩)
   | some ⟨k, _⟩ =>
-    if k == .sessionList || k == .sessionDrop || k == .sessionDropName || k == .userCreate || k == .userDrop || k == .userPassword
+    if (k == .sessionList || k == .sessionDrop || k == .sessionDropName) && sraw.isNone then ⟨w, .err "nosession", []⟩   -- `ok_or("No active session")`
+    else if k == .sessionList || k == .sessionDrop || k == .sessionDropName || k == .userCreate || k == .userDrop || k == .userPassword
        || k == .userRole || k == .apiKeyCreate || k == .apiKeyList || k == .apiKeyRevoke || k == .kgAclGrant || k == .kgAclRevoke then
       ⟨w, .err s!"unsupported:fast-path-{k.name}", []⟩
     else execRest P w rq role whole sraw curKg
   | none => execRest P w rq role whole sraw curKg
-where
-  /-- everything after the fast path (handler.rs:4478-4623) -/
-  execRest (P : Parser) (w : World) (rq : Req) (role : Option (String × Role)) (whole : Option Stmt)
-      (sraw : Option Sess) (curKg : Option String) : Out :=
-    let trimmed := trim rq.text
-    -- session interception of a single session rule / fact (4481-4536)
-    match sraw, whole with
-    | some se, some ⟨.sessionRule, .srule h⟩ =>
-      if startsWith "__".toList (h.toList.dropWhile (· == '~')) then ⟨w, .err "reserved", []⟩
-      else if se.closed then ⟨w, .err "sessiongone", []⟩
-      else ⟨updSess w se.user fun s => { s with rules := s.rules ++ [h] }, .msgs ["srule"] none, [⟨⟨.sessionRule, .srule h⟩, curKg.getD "default"⟩]⟩
-    | some se, some ⟨.fact, .fact rel t⟩ =>
-      if se.closed then ⟨w, .err "sessiongone", []⟩
-      else ⟨updSess w se.user fun s => { s with facts := s.facts ++ [(rel, t)] }, .msgs ["sfact"] none, [⟨⟨.fact, .fact rel t⟩, curKg.getD "default"⟩]⟩
-    | some _, some ⟨.sessionRule, _⟩ => ⟨w, .err "unsupported:session-rule-form", []⟩
-    | some _, some ⟨.fact, _⟩ => ⟨w, .err "unsupported:fact-form", []⟩
-    | _, _ =>
-    -- effective KG (4539-4545): a supplied but vanished session id is an error here
-    match (match rq.kgArg, sraw with
-           | some k, _ => some (some k)
-           | none, some se => if se.closed then none else some (some se.kg)
-           | none, none => some none) with
-    | none => ⟨w, .err "sessiongone", []⟩
-    | some effKg =>
-    let isQuery := startsWithChar '?' trimmed
-    let r : Out := match isQuery, sraw with
-      | true, some se => queryWithSession P w se.user rq.text
-      | _, _ => queryProgram P w effKg rq.text
-    postProcess w role whole sraw r
 
 end ILV.Handler
